@@ -1,17 +1,18 @@
 /*UNIT
 {"props": ["C08"], "src": ["lib/loop.c", "lib/loop_poll.c"], "mode": "plain", "kind": "bounded",
- "bound": "at most 2 earlier signal registrations (any signal numbers 1..64, any consistent handler state); the new registration's arguments are arbitrary; list walks unwound 5 times, the signal-number scan of _adjust_sigactions_ fully unwound (compile-time constant)",
+ "bound": "at most 2 earlier signal registrations (at most 1 in variant rtmax; any signal numbers 1..64, any consistent handler state); the new registration's arguments are arbitrary; list walks unwound 5 times, the signal-number scan of _adjust_sigactions_ fully unwound (compile-time constant)",
  "functions": ["qb_loop_signal_add", "_adjust_sigactions_"],
  "unwindset": ["_adjust_sigactions_.0:5", "_adjust_sigactions_.1:70"],
  "stubs": ["sigemptyset/sigaddset/sigismember/sigaction/signal: ghost model of the process's signal dispositions (stubs/sigmodel.h: numbers 1..64, all catchable except SIGKILL, SIGSTOP, 32, 33)", "calloc (fresh zeroed or NULL with errno ENOMEM)"],
  "drops": ["qb_util_log/qb_util_perror diagnostics compiled out (stubs/nolog.h)"],
  "expect_classes": ["assertion"], "timeout": 250, "cbmc_flags": ["--no-malloc-may-fail"],
- "variants": [{"vname": "upto63", "defines": ["-DV_CLASS=(nd_the_sig!=64)"]},
+ "variants": [{"vname": "upto63_few", "defines": ["-DV_CLASS=(nd_the_sig!=64&&nd_nregs<=1)", "-DV_FEW"]},
+              {"vname": "upto63_two", "defines": ["-DV_CLASS=(nd_the_sig!=64&&nd_nregs==2)", "-DV_TWO"]},
               {"vname": "rtmax", "defines": ["-DV_CLASS=(nd_the_sig==64)", "-DV_RTMAX"]}]}
 */
 /* qb_loop_signal_add for every argument combination on a source that already holds 0..2 registrations
  * (variant rtmax: signal number 64 = SIGRTMAX, split off because the signal-number scan stops short of it;
- *  variant upto63: every other int32 value):
+ *  variants upto63_few / upto63_two: every other int32 value, with at most one / with two earlier registrations):
  *  accepted   the registration is stored exactly once, at the end of the source's list, with the signal number,
  *             priority, callback and data given; the handle returned is that registration; a process-level handler
  *             is installed for the signal (that is what makes "the callback runs once per delivered signal" possible),
@@ -86,6 +87,9 @@ void harness(void)
 	verif_sigaction_calls = 0; verif_signal_dfl_calls = 0;
 	verif_alloc_calls = 0; verif_alloc_never_fails = 0;
 	ASSUME(V_CLASS);
+#ifdef V_RTMAX
+	ASSUME(nd_nregs <= 1);   /* keeps the split-off case cheap */
+#endif
 	struct qb_list_head *last0 = ss->sig_head.prev;
 	qb_loop_signal_handle handle = &v_tok;   /* sentinel */
 	int valid = nd_have_loop && nd_have_fn && nd_p >= QB_LOOP_LOW && nd_p <= QB_LOOP_HIGH;
@@ -97,7 +101,8 @@ void harness(void)
 	COVER(rc == -ENOMEM);
 	COVER(rc == -EINVAL && !nd_have_fn);
 	COVER(rc == -EINVAL && nd_p > QB_LOOP_HIGH);
-	COVER(rc == -EINVAL && nd_p < QB_LOOP_LOW && nd_nregs == 2);
+	COVER(rc == -EINVAL && nd_p < QB_LOOP_LOW);
+
 	COVER(rc == -EINVAL && !nd_have_loop);
 	POST(!valid || rc == -ENOMEM, "a valid signal registration is refused only for lack of memory");
 	POST(ss->sig_head.prev == last0 && last0->next == &ss->sig_head, "a refused signal registration is not stored");
@@ -107,12 +112,16 @@ void harness(void)
 	int catchable = VERIF_SIG_CATCHABLE(nd_the_sig);
 #ifdef V_RTMAX
 	COVER(nd_nregs == 0);
-	COVER(nd_nregs == 2 && nd_sig1 == 64);
+	COVER(nd_nregs == 1 && nd_sig0 == 64);
 #else
-	COVER(nd_nregs == 2 && nd_the_sig == nd_sig0 && nd_sig1 != nd_sig0 && (nd_superset & VERIF_SIG_BIT(nd_sig0)));
-	COVER(nd_nregs == 2 && catchable && nd_the_sig != nd_sig0 && nd_the_sig != nd_sig1);
+#ifdef V_TWO
+	COVER(nd_the_sig == nd_sig0 && nd_sig1 != nd_sig0 && (nd_superset & VERIF_SIG_BIT(nd_sig0)));
+	COVER(catchable && nd_the_sig != nd_sig0 && nd_the_sig != nd_sig1);
+#else
+	COVER(nd_nregs == 1 && nd_the_sig == nd_sig0 && (nd_superset & VERIF_SIG_BIT(nd_sig0)));
 	COVER(nd_nregs == 0 && nd_the_sig == 63);
 	COVER(nd_nregs == 0 && !nd_want_handle && nd_p == QB_LOOP_HIGH);
+#endif
 	COVER(!catchable && nd_the_sig > 64);
 	COVER(nd_the_sig == SIGKILL);
 #endif
